@@ -310,6 +310,56 @@ fn main() -> tantivy::Result<()> {
         Ok(searcher.segment_readers().len() == 3 && all[..4] == top4[..])
     })();
     rec.api("topk_tie_break_multi_segment", matches!(r3, Ok(true)));
+    // fourth scenario: the score read at a document must not depend on how the scorer got there.
+    // `a OR b`, a in docs 0..=70, b in docs {5000, 5003} (two 4096-id windows of the buffered
+    // union): one fill_buffer (64 ids), then advance up to 5003; compared with a fresh scorer that
+    // seeks to 5003.
+    let r4 = (|| -> tantivy::Result<bool> {
+        use tantivy::query::EnableScoring;
+        use tantivy::{DocSet, COLLECT_BLOCK_BUFFER_LEN, TERMINATED};
+        let mut sb = Schema::builder();
+        let f = sb.add_text_field("f", tantivy::schema::TEXT);
+        let index = Index::create_in_ram(sb.build());
+        let mut w: IndexWriter = index.writer_with_num_threads(1, 50_000_000)?;
+        for d in 0..6000u32 {
+            let mut text = String::from("z");
+            if d <= 70 {
+                text.push_str(" a");
+            }
+            if d == 5000 || d == 5003 {
+                text.push_str(" b");
+            }
+            w.add_document(doc!(f => text))?;
+        }
+        w.commit()?;
+        let searcher = index.reader()?.searcher();
+        let t = |s: &str| -> (Occur, Box<dyn Query>) {
+            (Occur::Should, Box::new(TermQuery::new(Term::from_field_text(f, s), IndexRecordOption::WithFreqs)))
+        };
+        let q = BooleanQuery::new(vec![t("a"), t("b")]);
+        let weight = q.weight(EnableScoring::enabled_from_searcher(&searcher))?;
+        let seg = searcher.segment_reader(0);
+        let mut fresh = weight.scorer(seg, 1.0)?;
+        if fresh.seek(5003) != 5003 {
+            return Ok(false);
+        }
+        let expected = fresh.score();
+        let mut s = weight.scorer(seg, 1.0)?;
+        let mut buf = [0u32; COLLECT_BLOCK_BUFFER_LEN];
+        if s.fill_buffer(&mut buf) != COLLECT_BLOCK_BUFFER_LEN {
+            return Ok(false);
+        }
+        // the scorer is left on a document: its score must be that document's score
+        let here = s.doc();
+        let mut fresh2 = weight.scorer(seg, 1.0)?;
+        let here_ok = fresh2.seek(here) == here && fresh2.score() == s.score();
+        let mut d = s.doc();
+        while d < 5003 && d != TERMINATED {
+            d = s.advance();
+        }
+        Ok(searcher.segment_readers().len() == 1 && d == 5003 && s.score() == expected && here_ok)
+    })();
+    rec.api("union_score_after_fill_buffer", matches!(r4, Ok(true)));
     for l in rec.log.lock().unwrap().iter() {
         println!("{}", l);
     }
